@@ -306,10 +306,11 @@ func runC19(c *Ctx) {
 		c.Check(ok404 && !onBody.IsValid(), "C19.W5-not-found-is-empty", find.Name+" › 404 decided by the status alone", find.SSA.Pos(), "the not-found return lies under no test on reading the body", "the not-found answer depends on the 404's body having been read (test at "+c.pos(onBody)+"): a not-found whose body is cut short reaches the caller as an error")
 		// the request is for the multihash asked
 		okURL := false
-		for _, cs := range c.Calls(find.SSA, Call("net/url.URL).JoinPath")) {
-			elems := variadicElems(c, cs.X.Args[1])
+		// (the request may be built and sent by a step helper: its multihash parameter is read in Find's terms)
+		for _, cs := range c.CallsInl(find.SSA, Call("net/url.URL).JoinPath"), 2) {
+			elems := variadicElems(c, c.CallX(cs.In).Args[1])
 			if len(elems) == 1 {
-				_, okURL = Match(Call("Multihash).B58String", Op("param", find.SSA.Params[2].Name())), elems[0])
+				_, okURL = Match(Call("Multihash).B58String", Op("param", find.SSA.Params[2].Name())), subst(elems[0], cs.Env))
 			}
 		}
 		c.Check(okURL, "C19.W4-same-body-type", find.Name+" › requests the multihash asked", find.SSA.Pos(), "URL = find URL / base58(multihash)", "request URL is not built from the multihash asked")
@@ -329,6 +330,49 @@ func runC19(c *Ctx) {
 			}
 		}
 		c.Check(ok, "C19.W5-not-found-is-empty", fb.Name+" › skips not-found", fb.SSA.Pos(), "a 404 API error for one multihash is skipped", "batch lookup fails on a not-found element")
+	}
+	// the response is still readable when its body is read: no function that hands out an *http.Response cancels, on
+	// its way out, a context it derived for the request (net/http then fails the body read with "context canceled" —
+	// small bodies that are already buffered hide it, large result sets do not come back)
+	{
+		cancelsOnReturn := func(cc *Ctx, fns []*Fn) []ssa.Instruction {
+			var out []ssa.Instruction
+			for _, f := range fns {
+				for _, g := range allFuncs(f.SSA) {
+					hands := false
+					res := g.Signature.Results()
+					for i := 0; i < res.Len(); i++ {
+						if strings.HasSuffix(res.At(i).Type().String(), "net/http.Response") {
+							hands = true
+						}
+					}
+					if !hands {
+						continue
+					}
+					instrs(g, func(in ssa.Instruction) {
+						if d, ok := in.(*ssa.Defer); ok && !d.Call.IsInvoke() {
+							if strings.HasSuffix(d.Call.Value.Type().String(), "context.CancelFunc") {
+								out = append(out, in)
+							}
+						}
+					})
+				}
+			}
+			return out
+		}
+		bad := cancelsOnReturn(c, c.Funcs("find/client"))
+		for _, in := range bad {
+			c.Bad("C19.W4-response-readable", c.short(in.Parent().String())+" › deferred cancel", in.Pos(), "the routine returns the response and cancels the request's context as it returns: the caller's read of the body fails once the body exceeds what is already buffered")
+		}
+		if len(bad) == 0 {
+			c.OK("C19.W4-response-readable", "find/client › responses handed out", token.NoPos, "no routine hands out a response of a request whose context it cancels on return")
+		}
+		if pc := c.posex(); pc == nil {
+			c.Unk("C19.W4-response-readable", "positive example", token.NoPos, "positive example package could not be loaded")
+		} else {
+			c.Check(len(cancelsOnReturn(pc, pc.Funcs("ipnicheck/testdata/posex"))) == 1, "C19.W4-response-readable", "positive example fires", token.NoPos, "rule found the seeded deferred cancel (and none in find/client)", "rule did not find its positive example: it would pass vacuously")
+		}
+		c.Floor("C19.W4-response-readable", 2)
 	}
 	c.Floor("C19.W4-same-body-type", 3)
 	c.Floor("C19.W5-not-found-is-empty", 3)
@@ -520,6 +564,21 @@ func runC19(c *Ctx) {
 			okMsg = m && len(c.FactsAt(st.Block())) <= 1 // only the err != nil guard
 		case "Status":
 			_, okSt = Match(Call("apierror.Error).Status"), c.E(st.Val))
+			// whatever the status is: the store lies under "it is an API error" (and err != nil) only — a filter on the
+			// status value (known to net/http, in some range) sends other API errors out as plain errors
+			for _, fct := range c.FactsAt(st.Block()) {
+				if fct.If == nil || fct.If.Parent() != st.Parent() {
+					continue
+				}
+				cx := strip(fct.Cond)
+				if cx.Op == "call" && nameMatches(cx.Name, "errors.As") && fct.Val {
+					continue
+				}
+				if _, isNil := Match(EqNil(Op("param", "")), cx); isNil && !fct.Val {
+					continue
+				}
+				okSt = false
+			}
 		}
 	})
 	c.Check(nMsg == 1 && okMsg && okSt, "C19.W7-error-fields", ee.Name+" › message and status stored", ee.SSA.Pos(), "Message = err.Error() unconditionally (one store), Status = the API error's status", "the encoded error does not always carry err.Error() as message (and the API status): a status-only error loses its text across the wire")
